@@ -6,7 +6,7 @@ ENTRY = dict(
     technique="Lean 4 theorems over all frames / streams / configurations (envelope model shared with C01, byte-level network-info and "
               "program-version codecs, PyFrame equality model) + correspondence with Frame.bytes -> FrameReader.read -> fields -> .bytes, "
               "X(data=d).message -> X(message=...).data, and Python ==/!= on generated frame pairs",
-    prop_modules=["C03", "C03Object"],
+    prop_modules=["C03", "C03Object", "TieFrameObj"],
     level_text=(
         "Proof: `C03.read_encode` shows for ALL frames that pass the reader's gates (<= 1000 bytes, addressed to the library or broadcast, "
         "known sender and kind) and ALL trailing bytes that reading the serialised bytes delivers exactly the same kind, addressing, versions "
@@ -22,7 +22,10 @@ ENTRY = dict(
         "model one by one, in order, unchanged (composition with the C04 stream theorem). The tie to the code is differential: real frames through a real StreamReader/FrameReader, real "
         "DeviceAvailableResponse/ProgramVersionResponse objects both ways (plus mutated, truncated and random messages through the decoders), "
         "and ==/!= on pairs that are identical or differ in exactly one of kind, recipient, sender, econet type, version, message, data."),
-    level_note="Trusted: Lean kernel; model <-> code ties are differential; text forms of IPv4 addresses, SSIDs (UTF-8) and 'a.b.c' are CPython's. "
+    level_note="CODE TIE (round 8): tools/py2lean_types.py translates the source text of the frame object (Frame.__init__, message / data getters and setters, length, __len__, header, bytes; "
+               "create_message / decode_message / frame_type of the concrete kind are a parameter) and Props/TieFrameObj.lean proves `translated method = Obj.step` for ALL object states and codecs "
+               "(`Frame_message_eq`, `Frame_data_eq`, `Frame_*_set_eq`, `Frame_length_eq`, `Frame_header_eq`, `Frame_bytes_eq`, `Frame_step_sim`); soft mode: CODE-TIE-BROKEN. "
+               "Trusted: Lean kernel; the remaining model <-> code ties are differential; text forms of IPv4 addresses, SSIDs (UTF-8) and 'a.b.c' are CPython's. "
                "Frame.__eq__ compares the lazy caches: a frame whose .bytes/.data was read differs from a fresh frame built from the same "
                "arguments (modelled; reported as an observation, not judged as a violation).",
     clauses={
